@@ -93,7 +93,7 @@ func XML(ctx *runtime.Task, funcExpr *ast.CallExpr) *errchain.PlError {
 		return nil
 	}
 	// xmlquery already caches the compiled expression for us.
-	dest, err := xmlquery.Query(doc, xpathExpr)
+	dest, err := queryXMLNode(doc, xpathExpr)
 	if err != nil {
 		l.Debug(err)
 		return nil
@@ -111,4 +111,16 @@ func XML(ctx *runtime.Task, funcExpr *ast.CallExpr) *errchain.PlError {
 	}
 
 	return nil
+}
+
+// queryXMLNode returns the first node the expression selects. The query
+// engine panics on some expressions that do not select nodes at all (true(),
+// concat('a','b')): such an expression matches nothing.
+func queryXMLNode(doc *xmlquery.Node, expr string) (node *xmlquery.Node, err error) {
+	defer func() {
+		if r := recover(); r != nil {
+			node, err = nil, fmt.Errorf("xpath expr %s: %v", expr, r)
+		}
+	}()
+	return xmlquery.Query(doc, expr)
 }
